@@ -85,6 +85,13 @@ func (g *gfn) e(x ast.Expr) string {
 		if g.recv[n.Name] {
 			return ".nil"
 		}
+		if _, known := g.vars[n.Name]; !known {
+			if _, isConst := consts[n.Name]; isConst {
+				if v, ok := evalConst(n, 0); ok {
+					return fmt.Sprintf("(.int %d)", v)
+				}
+			}
+		}
 		return fmt.Sprintf("(.var %d)", g.v(n.Name))
 	case *ast.BasicLit:
 		switch n.Kind {
@@ -151,6 +158,9 @@ func (g *gfn) e(x ast.Expr) string {
 		if name == "new" && len(n.Args) == 1 {
 			return "(.bi .newObj .nil)"
 		}
+		if name == "paramtext.NewParamKVSeperate" && len(n.Args) == 3 {
+			return fmt.Sprintf("(.bi .mkKV %s)", g.es(n.Args))
+		}
 		if name == "fmt.Sprintf" && len(n.Args) == 2 && src(n.Args[0]) == `"%d"` {
 			return fmt.Sprintf("(.bi .sprintfD %s)", g.es(n.Args[1:]))
 		}
@@ -160,6 +170,8 @@ func (g *gfn) e(x ast.Expr) string {
 					if f, ok := g.funcs[se.Sel.Name]; ok {
 						return fmt.Sprintf("(.call %d %s)", f, g.es(n.Args))
 					}
+				} else if f, ok := g.funcs["(*ParamKV)."+se.Sel.Name]; ok { // p.ToStringStr(k, v) on a ParamKV held in a local
+					return fmt.Sprintf("(.call %d %s)", f, g.es(append([]ast.Expr{se.X}, n.Args...)))
 				} else if se.Sel.Name == "String" && len(n.Args) == 0 { // buffer.String()
 					return fmt.Sprintf("(.bi .bufString (.cons (.var %d) .nil))", g.v(id.Name))
 				}
@@ -356,6 +368,7 @@ func goirMain(repo, out string) {
 		{"paramKV", "util/paramtext/ParamKV.go", []string{"indexFold", "ToPair", "NewParamKVSeperate", "ExistsKey", "ToString", "ToStringStr"}},
 		{"stringutil", "util/stringutil/StringUtil.go", []string{"Truncate", "ParseInt32", "ParseInt64", "ParseStringZeroToEmpty", "ArrayInt16ToString"}},
 	}
+	load(filepath.Join(repo, "lang", "pack", "udp")) // constants of the udp package
 	var b strings.Builder
 	w := func(f string, a ...interface{}) { fmt.Fprintf(&b, f, a...) }
 	w("-- GENERATED by xlate/c07 (mode goir) from util/paramtext/ParamKV.go and util/stringutil/StringUtil.go — do not edit\n")
@@ -446,6 +459,27 @@ func goirMain(repo, out string) {
 			rev = append(rev, sp.group+"."+sp.names[i])
 		}
 		w("def %s.prog : List Fn := [%s]\n\n", sp.group, strings.Join(rev, ", "))
+	}
+	// Process() of the three packs that carry a connection string: receiver fields 0=Ver 1=Dbc 2=Sql;
+	// function 0 of their environment is (*ParamKV).ToStringStr applied to a ParamKV built by NewParamKVSeperate
+	w("-- Process() bodies; receiver fields: 0=Ver 1=Dbc 2=Sql; function 0 = (*ParamKV).ToStringStr on the object of NewParamKVSeperate\n\n")
+	for _, tn := range []string{"UdpTxSqlPack", "UdpTxSqlParamPack", "UdpTxDbcPack"} {
+		fd := methods[tn]["Process"]
+		if fd == nil {
+			w("def process.%s : Fn := { params := 0, body := .cons .unknown .nil }\n\n", tn)
+			continue
+		}
+		g := &gfn{name: tn, decl: fd, vars: map[string]int{}, recv: map[string]bool{}, fields: map[string]int{"Ver": 0, "Dbc": 1, "Sql": 2},
+			funcs: map[string]int{"(*ParamKV).ToStringStr": 0}, strSl: map[string]bool{}, intSl: map[string]bool{}}
+		if fd.Recv != nil && len(fd.Recv.List) == 1 && len(fd.Recv.List[0].Names) == 1 {
+			g.recv[fd.Recv.List[0].Names[0].Name] = true
+		}
+		body := g.ss(fd.Body.List)
+		var vs []string
+		for i, nm := range g.order {
+			vs = append(vs, fmt.Sprintf("%d=%s", i, nm))
+		}
+		w("/-- %s.Process (lang/pack/udp); variables: %s -/\ndef process.%s : Fn := { params := 0, body :=\n      %s }\n\n", tn, strings.Join(vs, " "), tn, body)
 	}
 	w("end Udp.Gen.GoFns\n")
 	if out == "" {
